@@ -47,17 +47,26 @@ def mustAcceptCode (c : Nat) : Bool :=
 def CodePolicy (accept : Nat → Bool) : Prop :=
   ∀ c, (mustRejectCode c = true → accept c = false) ∧ (mustAcceptCode c = true → accept c = true)
 
-/-- A started, unfinished data message. -/
-structure Frag where
-  typ : Nat
-  compressed : Bool
-  acc : Bytes
+/-- Relaxations of the receiver rules.  `Quirks.rfc` (none) is the specification; `Quirks.go` names
+exactly the three places where the Go reader is known to deviate (see `Props/C29.lean`). -/
+structure Quirks where
+  /-- RSV1 is tolerated on control frames and continuation frames once permessage-deflate is
+  negotiated (RFC 7692 §6 says fail) -/
+  rsv1Anywhere : Bool
+  /-- a Close frame with a 1-byte body is treated like an empty one (RFC 6455 §5.5.1 says fail) -/
+  close1AsEmpty : Bool
+  /-- a 64-bit length with the most significant bit set is reported as "too big" instead of as a
+  protocol violation -/
+  msbAsTooBig : Bool
 deriving Repr, DecidableEq
 
+def Quirks.rfc : Quirks := ⟨false, false, false⟩
+def Quirks.go : Quirks := ⟨true, true, true⟩
+
 /-- Violations visible in the first two header bytes. -/
-def hdrViolation (cfg : Cfg) (inMsg : Bool) (h : Hdr) : Bool :=
+def hdrViolation (q : Quirks) (cfg : Cfg) (inMsg : Bool) (h : Hdr) : Bool :=
   h.rsv2 || h.rsv3
-  || (h.rsv1 && !(cfg.deflate && isDataOp h.opcode))
+  || (h.rsv1 && !(cfg.deflate && (isDataOp h.opcode || q.rsv1Anywhere)))
   || !(h.opcode == 0 || isDataOp h.opcode || isControlOp h.opcode)
   || (isControlOp h.opcode && (!h.fin || h.len7 > 125))
   || (h.opcode == 0 && !inMsg)
@@ -89,10 +98,10 @@ def deliver (cfg : Cfg) (typ : Nat) (compressed : Bool) (acc : Bytes) : Event :=
   else .msg typ acc
 
 /-- §5.5.1 / §7.4: the event for a Close frame with (unmasked) body `p`. -/
-def closeEvent (accept : Nat → Bool) (p : Bytes) : Event :=
+def closeEvent (q : Quirks) (accept : Nat → Bool) (p : Bytes) : Event :=
   match p with
   | [] => .close 1005 []
-  | [_] => .protoError
+  | [_] => if q.close1AsEmpty then .close 1005 [] else .protoError
   | a :: b :: reason =>
     let code := a.toNat * 256 + b.toNat
     if !accept code then .protoError
@@ -103,15 +112,15 @@ def closeEvent (accept : Nat → Bool) (p : Bytes) : Event :=
 def overLimit (cfg : Cfg) (total : Nat) : Bool :=
   (cfg.readLimit > 0 && total > cfg.readLimit) || total ≥ two63
 
-def decodeGo (cfg : Cfg) (accept : Nat → Bool) : Nat → Option Frag → Bytes → List Event
+def decodeQ (q : Quirks) (cfg : Cfg) (accept : Nat → Bool) : Nat → Option Frag → Bytes → List Event
   | 0, _, _ => [.incomplete]
   | fuel + 1, frag, b0 :: b1 :: r1 =>
     let h := parseHdr b0 b1
-    if hdrViolation cfg frag.isSome h then [.protoError] else
+    if hdrViolation q cfg frag.isSome h then [.protoError] else
     match extLen h.len7 r1 with
     | none => [.incomplete]
     | some (len, r2) =>
-      if len ≥ two63 then [.protoError] else
+      if len ≥ two63 then [if q.msbAsTooBig then .tooBig else .protoError] else
       match takeKey h.masked r2 with
       | none => [.incomplete]
       | some (key, r3) =>
@@ -119,9 +128,9 @@ def decodeGo (cfg : Cfg) (accept : Nat → Bool) : Nat → Option Frag → Bytes
           if r3.length < len then [.incomplete] else
           let p := xorMask key 0 (r3.take len)
           let rest := r3.drop len
-          if h.opcode == 9 then .ping p :: decodeGo cfg accept fuel frag rest
-          else if h.opcode == 10 then .pong p :: decodeGo cfg accept fuel frag rest
-          else [closeEvent accept p]
+          if h.opcode == 9 then .ping p :: decodeQ q cfg accept fuel frag rest
+          else if h.opcode == 10 then .pong p :: decodeQ q cfg accept fuel frag rest
+          else [closeEvent q accept p]
         else
           -- data frame: first frame of a message or a continuation
           let typ := match frag with | some f => f.typ | none => h.opcode
@@ -133,12 +142,16 @@ def decodeGo (cfg : Cfg) (accept : Nat → Bool) : Nat → Option Frag → Bytes
           let rest := r3.drop len
           if h.fin then
             let e := deliver cfg typ compressed acc'
-            if e.terminal then [e] else e :: decodeGo cfg accept fuel none rest
-          else decodeGo cfg accept fuel (some ⟨typ, compressed, acc'⟩) rest
+            if e.terminal then [e] else e :: decodeQ q cfg accept fuel none rest
+          else decodeQ q cfg accept fuel (some ⟨typ, compressed, acc'⟩) rest
   | _ + 1, _, _ => [.incomplete]
 
 /-- The events a conforming receiver reports for the bytes received so far. -/
 def decode (cfg : Cfg) (accept : Nat → Bool) (bs : Bytes) : List Event :=
-  decodeGo cfg accept (bs.length + 1) none bs
+  decodeQ Quirks.rfc cfg accept (bs.length + 1) none bs
+
+/-- The same with the relaxations `q` (used to describe how far the Go reader deviates). -/
+def decodeWith (q : Quirks) (cfg : Cfg) (accept : Nat → Bool) (bs : Bytes) : List Event :=
+  decodeQ q cfg accept (bs.length + 1) none bs
 
 end CentrifugeVerif.WS.Spec
